@@ -2019,4 +2019,3 @@ end Gts.Gen.GoPars
 `
 
 func genParsPrelude(repo string) (string, error) { return parsPreludeText, nil }
-
